@@ -34,9 +34,19 @@ import (
 //	    output: v<final counter> then one token per recorded read transaction
 //	          <reader>.<n>:<tagStart>:<tagEnd>:<q>=<answer>|<q>=<answer>...
 //	          q: N<n> K<n> R<r> G<g> H<g> T<k> iN<n> iR<r> lG<id> lM<g> E<id>; answer: numbers joined by '.', '-' if empty
+//	          round 2:  A0 QueryIds ""   P<skip><limit> q := ast.Parse(things, ""), q.SetSkip / q.SetLimit (digit 0 = not called), QueryIdsC
+//	          Q<rank><skip><limit> the same on `rank >= n`   X<b> even = true|false   Z<b><k> even = .. and rank >= k   Y<n> ext = "x<n>"
+//	          (even, ext: externally computed symbols, NewBoolFuncSymbol / NewStringFuncSymbol + AddEntitySymbol)
+//	          V<aa><bb> / W<aa><bb>: even / ext .Eval for row a<aa> held, .Eval for row a<bb>, then both values decoded
+//	cr <readers> <iters> <seed> <kind,kind,..> <tx> <tx> ...
+//	    the transactions are committed first (serially); then the harness evaluates, in one read transaction, every query of the
+//	    listed kinds (token s.0, the serial baseline); then <readers> goroutines, released together, each run <iters> read
+//	    transactions of 5 random queries of those kinds.  Recorded: the baseline, the first 2 read transactions of every reader and
+//	    (up to 3 per reader) every read transaction with an answer that differs from the baseline.  Output format as for mv; the
+//	    verdict is the Lean driver's: every recorded answer = model on the tagged version.
 //	race <scenario> <goroutines> <iters>       concurrent use of the helpers; prints "done" (or "wrong:<what>");
 //	    the interesting output is the Go race detector's report when the harness is built with -race
-//	    scenarios: parse getsymbol errors query sharedquery
+//	    scenarios: parse getsymbol errors query extsym emptyfilter sharedquery
 func init() {
 	register("c18", &propHarness{gen: c18Gen, exec: c18Exec})
 	logrus.SetLevel(logrus.PanicLevel)
@@ -103,6 +113,19 @@ type c18Env struct {
 	idxRoles boltz.SetReadIndex
 	links    boltz.LinkCollection
 	members  boltz.EntitySetSymbol
+	even     boltz.EntitySymbol // externally computed: id a<n> -> n even
+	ext      boltz.EntitySymbol // externally computed: id a<n> -> nil if n%4 == 3, else "x<n%3>"
+}
+
+func c18IdNum(id string) int {
+	if len(id) < 2 {
+		return -1
+	}
+	n, err := strconv.Atoi(id[1:])
+	if err != nil {
+		return -1
+	}
+	return n
 }
 
 func c18Open() (*c18Env, error) {
@@ -138,6 +161,21 @@ func c18Open() (*c18Env, error) {
 	symRoles := e.things.AddSetSymbol("roles", ast.NodeTypeString)
 	e.idxRoles = e.things.AddSetIndex(symRoles)
 	symGroups := e.things.AddFkSetSymbol("groups", e.groups)
+
+	e.even = boltz.NewBoolFuncSymbol(e.things, "even", func(id string) bool {
+		n := c18IdNum(id)
+		return n >= 0 && n%2 == 0
+	})
+	e.things.AddEntitySymbol(e.even)
+	e.ext = boltz.NewStringFuncSymbol(e.things, "ext", func(id string) *string {
+		n := c18IdNum(id)
+		if n < 0 || n%4 == 3 {
+			return nil
+		}
+		v := fmt.Sprintf("x%d", n%3)
+		return &v
+	})
+	e.things.AddEntitySymbol(e.ext)
 
 	e.groups.AddIdSymbol("id", ast.NodeTypeString)
 	e.groups.AddSymbol("label", ast.NodeTypeString)
@@ -267,7 +305,64 @@ func (e *c18Env) observe(tx *bbolt.Tx, q string) string {
 		}
 		return c18IdNums(ids)
 	}
+	// the caller's own query object: parse, adjust paging on it, run it
+	paged := func(text string, skip, limit int) string {
+		q, err := ast.Parse(e.things, text)
+		if err != nil {
+			return "err"
+		}
+		if skip > 0 {
+			q.SetSkip(int64(skip))
+		}
+		if limit > 0 {
+			q.SetLimit(int64(limit))
+		}
+		ids, _, err := e.things.QueryIdsC(tx, q)
+		if err != nil {
+			return "err"
+		}
+		return c18IdNums(ids)
+	}
 	switch kind {
+	case "A":
+		return query("")
+	case "P":
+		return paged("", arg/10, arg%10)
+	case "Q":
+		return paged(fmt.Sprintf(`rank >= %d`, arg/100), arg/10%10, arg%10)
+	case "X":
+		return query(fmt.Sprintf(`even = %v`, arg == 1))
+	case "Z":
+		return query(fmt.Sprintf(`even = %v and rank >= %d`, arg/10 == 1, arg%10))
+	case "Y":
+		return query(fmt.Sprintf(`ext = "x%d"`, arg))
+	case "V", "W":
+		// two evaluations outstanding before either value is decoded (the schedule "reader 1 evaluates row a, reader 2
+		// evaluates row b, reader 1 decodes"; the external symbols do not look at the transaction)
+		sym := e.even
+		if kind == "W" {
+			sym = e.ext
+		}
+		ta, va := sym.Eval(tx, []byte(fmt.Sprintf("a%d", arg/100)))
+		tb, vb := sym.Eval(tx, []byte(fmt.Sprintf("a%d", arg%100)))
+		dec := func(t boltz.FieldType, v []byte) string {
+			if kind == "V" {
+				b := boltz.FieldToBool(t, v)
+				if b == nil {
+					return "9"
+				}
+				if *b {
+					return "1"
+				}
+				return "0"
+			}
+			sv := boltz.FieldToString(t, v)
+			if sv == nil || *sv == "" { // a nil string value decodes as "" (BytesToString)
+				return "9"
+			}
+			return strings.TrimPrefix(*sv, "x")
+		}
+		return dec(ta, va) + "." + dec(tb, vb)
 	case "N":
 		return query(fmt.Sprintf(`name = "n%d"`, arg))
 	case "K":
@@ -311,24 +406,121 @@ func (e *c18Env) observe(tx *bbolt.Tx, q string) string {
 	return "bad-q"
 }
 
-var c18QKinds = []string{"N", "K", "R", "G", "H", "T", "iN", "iR", "lG", "lM", "E"}
+var c18QKinds = []string{"N", "K", "R", "G", "H", "T", "iN", "iR", "lG", "lM", "E", "A", "P", "Q", "X", "Z", "Y", "V", "W"}
 
-func c18RandQ(r *rng) string {
-	k := pick(r, c18QKinds)
-	switch k {
-	case "N", "iN":
-		return k + strconv.Itoa(r.intn(6)*10+r.intn(3))
-	case "K":
-		return k + strconv.Itoa(r.intn(6))
-	case "R", "iR":
-		return k + strconv.Itoa(r.intn(3))
-	case "G", "H", "lM":
-		return k + strconv.Itoa(r.intn(3))
-	case "T":
-		return k + strconv.Itoa(1+r.intn(4))
-	default:
-		return k + strconv.Itoa(r.intn(6))
+var c18MvIds = []int{0, 1, 2, 3, 4, 5}
+
+func c18Range(lo, hi int) []int {
+	var r []int
+	for i := lo; i <= hi; i++ {
+		r = append(r, i)
 	}
+	return r
+}
+
+// the arguments of one query kind over the row ids a case uses
+func c18Args(kind string, ids []int) []int {
+	var r []int
+	switch kind {
+	case "N", "iN":
+		for _, id := range ids {
+			for g := 0; g < 3; g++ {
+				r = append(r, id*10+g)
+			}
+		}
+	case "K":
+		return c18Range(0, 5)
+	case "R", "iR", "G", "H", "lM", "Y":
+		return c18Range(0, 2)
+	case "T":
+		return c18Range(1, 4)
+	case "A":
+		return []int{0}
+	case "P":
+		for sk := 0; sk < 4; sk++ {
+			for l := 0; l < 5; l++ {
+				r = append(r, sk*10+l)
+			}
+		}
+	case "Q":
+		for n := 0; n < 4; n++ {
+			for sk := 0; sk < 3; sk++ {
+				for l := 0; l < 4; l++ {
+					r = append(r, n*100+sk*10+l)
+				}
+			}
+		}
+	case "X":
+		return []int{0, 1}
+	case "Z":
+		for b := 0; b < 2; b++ {
+			for k := 0; k < 6; k++ {
+				r = append(r, b*10+k)
+			}
+		}
+	case "V", "W":
+		sub := ids
+		if len(sub) > 8 {
+			sub = sub[:8]
+		}
+		for _, a := range sub {
+			for _, b := range sub {
+				r = append(r, a*100+b)
+			}
+		}
+	default: // lG, E
+		return ids
+	}
+	return r
+}
+
+func c18RandQ(r *rng, kinds []string, ids []int) string {
+	k := pick(r, kinds)
+	return k + strconv.Itoa(pick(r, c18Args(k, ids)))
+}
+
+// the writer: commits / aborts the transactions in order, the version counter written first in each
+func (e *c18Env) runWriter(txs []string, yield bool) (int64, string) {
+	committed := int64(0)
+	for _, t := range txs {
+		commit := t[0] == 'c'
+		var ops []string
+		if len(t) > 2 {
+			ops = strings.Split(t[2:], "/")
+		}
+		err := e.db.Update(nil, func(ctx boltz.MutateContext) error {
+			// the counter first, so that a reader seeing part of this transaction would be caught
+			b := boltz.GetOrCreatePath(ctx.Tx(), "ver")
+			b.SetInt64("n", committed+1, nil)
+			if b.HasError() {
+				return b.GetError()
+			}
+			for _, op := range ops {
+				if op == "" {
+					continue
+				}
+				if err := e.applyOp(ctx, op); err != nil {
+					return fmt.Errorf("op %s: %w", op, err)
+				}
+			}
+			if !commit {
+				return errors.New("abort requested")
+			}
+			return nil
+		})
+		if commit {
+			if err != nil {
+				return committed, "writer-error:" + strings.ReplaceAll(err.Error(), " ", "_")
+			}
+			committed++
+		} else if err == nil {
+			return committed, "abort-committed"
+		}
+		if yield {
+			runtime.Gosched()
+		}
+	}
+	return committed, ""
 }
 
 func c18Mv(f []string) string {
@@ -366,7 +558,7 @@ func c18Mv(f []string) string {
 					tagS = c18Tag(tx)
 					obs := make([]string, 0, 5)
 					for i := 0; i < 5; i++ {
-						q := c18RandQ(r)
+						q := c18RandQ(r, c18QKinds, c18MvIds)
 						obs = append(obs, q+"="+e.observe(tx, q))
 						if i == 2 {
 							runtime.Gosched()
@@ -393,46 +585,7 @@ func c18Mv(f []string) string {
 			}
 		}()
 	}
-	committed := int64(0)
-	werr := ""
-	for _, t := range txs {
-		commit := t[0] == 'c'
-		var ops []string
-		if len(t) > 2 {
-			ops = strings.Split(t[2:], "/")
-		}
-		err := e.db.Update(nil, func(ctx boltz.MutateContext) error {
-			// the counter first, so that a reader seeing part of this transaction would be caught
-			b := boltz.GetOrCreatePath(ctx.Tx(), "ver")
-			b.SetInt64("n", committed+1, nil)
-			if b.HasError() {
-				return b.GetError()
-			}
-			for _, op := range ops {
-				if op == "" {
-					continue
-				}
-				if err := e.applyOp(ctx, op); err != nil {
-					return fmt.Errorf("op %s: %w", op, err)
-				}
-			}
-			if !commit {
-				return errors.New("abort requested")
-			}
-			return nil
-		})
-		if commit {
-			if err != nil {
-				werr = "writer-error:" + strings.ReplaceAll(err.Error(), " ", "_")
-				break
-			}
-			committed++
-		} else if err == nil {
-			werr = "abort-committed"
-			break
-		}
-		runtime.Gosched()
-	}
+	_, werr := e.runWriter(txs, true)
 	writerDone.Store(true)
 	wg.Wait()
 	if werr != "" {
@@ -444,6 +597,136 @@ func c18Mv(f []string) string {
 	final := int64(-1)
 	_ = e.db.View(func(tx *bbolt.Tx) error { final = c18Tag(tx); return nil })
 	out := []string{fmt.Sprintf("v%d", final)}
+	for _, l := range logs {
+		out = append(out, l...)
+	}
+	return strings.Join(out, " ")
+}
+
+// ------------------------------------------------------------------ cr: concurrent readers on one committed version
+
+func c18CaseIds(txs []string) []int {
+	seen := map[int]bool{}
+	for _, t := range txs {
+		if len(t) <= 2 {
+			continue
+		}
+		for _, op := range strings.Split(t[2:], "/") {
+			if len(op) > 1 && op[0] == 'p' {
+				id, err := strconv.Atoi(strings.SplitN(op[1:], ".", 2)[0])
+				if err == nil {
+					seen[id] = true
+				}
+			}
+		}
+	}
+	var ids []int
+	for id := range seen {
+		ids = append(ids, id)
+	}
+	sort.Ints(ids)
+	return ids
+}
+
+func c18Cr(f []string) string {
+	if len(f) < 5 {
+		return "bad-case"
+	}
+	readers, _ := strconv.Atoi(f[1])
+	iters, _ := strconv.Atoi(f[2])
+	seed, _ := strconv.ParseUint(f[3], 10, 64)
+	kinds := strings.Split(f[4], ",")
+	txs := f[5:]
+	ids := c18CaseIds(txs)
+	if len(ids) == 0 {
+		ids = c18MvIds
+	}
+	e, err := c18Open()
+	if err != nil {
+		return "setup-failed " + err.Error()
+	}
+	defer e.close()
+	if _, werr := e.runWriter(txs, false); werr != "" {
+		return werr
+	}
+	// serial baseline: every query of the listed kinds, one read transaction, one goroutine
+	var universe []string
+	for _, k := range kinds {
+		for _, a := range c18Args(k, ids) {
+			universe = append(universe, k+strconv.Itoa(a))
+		}
+	}
+	baseline := map[string]string{}
+	var baseTok string
+	_ = e.db.View(func(tx *bbolt.Tx) error {
+		tagS := c18Tag(tx)
+		obs := make([]string, 0, len(universe))
+		for _, q := range universe {
+			a := e.observe(tx, q)
+			baseline[q] = a
+			obs = append(obs, q+"="+a)
+		}
+		baseTok = fmt.Sprintf("s.0:%d:%d:%s", tagS, c18Tag(tx), strings.Join(obs, "|"))
+		return nil
+	})
+	logs := make([][]string, readers)
+	var problem atomic.Value
+	var wg, ready sync.WaitGroup
+	start := make(chan struct{})
+	for ri := 0; ri < readers; ri++ {
+		wg.Add(1)
+		ready.Add(1)
+		ri := ri
+		go func() {
+			defer wg.Done()
+			defer func() {
+				if rec := recover(); rec != nil {
+					problem.Store(fmt.Sprintf("reader-panic:%v", rec))
+				}
+			}()
+			r := newRng(seed*131 + uint64(ri))
+			deviating := 0
+			ready.Done()
+			<-start
+			for n := 0; n < iters; n++ {
+				var tok string
+				differs := false
+				err := e.db.View(func(tx *bbolt.Tx) error {
+					tagS := c18Tag(tx)
+					obs := make([]string, 0, 5)
+					for i := 0; i < 5; i++ {
+						q := pick(r, universe)
+						a := e.observe(tx, q)
+						if a != baseline[q] {
+							differs = true
+						}
+						obs = append(obs, q+"="+a)
+					}
+					tok = fmt.Sprintf("%d.%d:%d:%d:%s", ri, n, tagS, c18Tag(tx), strings.Join(obs, "|"))
+					return nil
+				})
+				if err != nil {
+					problem.Store("view-error:" + err.Error())
+					return
+				}
+				if n < 2 || (differs && deviating < 3) {
+					logs[ri] = append(logs[ri], tok)
+					if differs {
+						deviating++
+					}
+				}
+			}
+		}()
+	}
+	ready.Wait()
+	close(start)
+	wg.Wait()
+	if p := problem.Load(); p != nil {
+		return strings.ReplaceAll(p.(string), " ", "_")
+	}
+	final := int64(-1)
+	_ = e.db.View(func(tx *bbolt.Tx) error { final = c18Tag(tx); return nil })
+	out := []string{fmt.Sprintf("v%d", final), baseTok}
 	for _, l := range logs {
 		out = append(out, l...)
 	}
@@ -514,6 +797,27 @@ func c18Race(scenario string, goroutines, iters int) string {
 		}
 		return "done"
 	}
+	// serial answers of the queries the read-only scenarios use (data is fixed: no writer in those scenarios)
+	extExpected := map[string]string{}
+	if scenario == "extsym" || scenario == "emptyfilter" {
+		_ = e.db.View(func(tx *bbolt.Tx) error {
+			for _, k := range []string{"X", "Y", "Z", "P", "A"} {
+				for _, a := range c18Args(k, c18MvIds) {
+					// P / A answers computed from a query that is never paged by anybody: rank >= 0 matches every row
+					q := k + strconv.Itoa(a)
+					switch k {
+					case "A":
+						extExpected[q] = e.observe(tx, "K0")
+					case "P":
+						extExpected[q] = e.observe(tx, "Q0"+fmt.Sprintf("%02d", a))
+					default:
+						extExpected[q] = e.observe(tx, q)
+					}
+				}
+			}
+			return nil
+		})
+	}
 	var stop atomic.Bool
 	if scenario == "query" {
 		wg.Add(1)
@@ -556,11 +860,33 @@ func c18Race(scenario string, goroutines, iters int) string {
 						!boltz.IsUniqueIndexDuplicateError(dup) || boltz.IsUniqueIndexDuplicateError(notFound) || boltz.IsUniqueIndexDuplicateError(plain) {
 						wrong.Store("errors:classification")
 					}
+				case "extsym":
+					// externally computed symbols evaluated by all readers at once, on rows with different outcomes
+					_ = e.db.View(func(tx *bbolt.Tx) error {
+						for _, q := range []string{"X" + strconv.Itoa((g+i)%2), "Y" + strconv.Itoa((g+i)%3), "Z" + strconv.Itoa(((g+i)%2)*10+i%3)} {
+							if a := e.observe(tx, q); a != extExpected[q] {
+								wrong.Store("extsym:" + q + "=" + a + "_serial:" + extExpected[q])
+							}
+						}
+						return nil
+					})
+				case "emptyfilter":
+					// every reader parses the empty filter itself; some put their own paging on what they got back
+					_ = e.db.View(func(tx *bbolt.Tx) error {
+						q := "A0"
+						if (g+i)%2 == 0 {
+							q = "P" + strconv.Itoa(((g+i)/2%3)*10+1+i%3)
+						}
+						if a := e.observe(tx, q); a != extExpected[q] {
+							wrong.Store("emptyfilter:" + q + "=" + a + "_serial:" + extExpected[q])
+						}
+						return nil
+					})
 				case "query":
 					_ = e.db.View(func(tx *bbolt.Tx) error {
 						tag := c18Tag(tx)
 						for j := 0; j < 3; j++ {
-							q := c18RandQ(r)
+							q := c18RandQ(r, c18QKinds, c18MvIds)
 							_ = e.observe(tx, q)
 						}
 						if c18Tag(tx) != tag {
@@ -586,6 +912,8 @@ func c18Exec(line string) string {
 	switch f[0] {
 	case "mv":
 		return c18Mv(f)
+	case "cr":
+		return c18Cr(f)
 	case "race":
 		g, _ := strconv.Atoi(f[2])
 		n, _ := strconv.Atoi(f[3])
@@ -628,6 +956,54 @@ func c18GenTx(r *rng, gen []int) string {
 	return c + ":" + strings.Join(ops, "/")
 }
 
+// the query kinds the readers of one cr case concentrate on (collisions need the same symbol / object at the same moment)
+var c18Focus = [][]string{
+	{"X", "Z"}, {"X", "Y", "V"}, {"A", "P"}, {"A", "P", "Q", "K"}, {"Y", "W", "Z"}, {"R", "H", "G"}, {"T", "K", "Q"}, {"N", "iN", "E", "lG", "lM", "iR"},
+}
+
+func c18GenCr(r *rng, focus []string, iters int) string {
+	rows := 16 + r.intn(25)
+	ids := c18Range(10, 10+rows-1)
+	var txs []string
+	gen := map[int]int{}
+	// the rows, a few transactions of up to 12 creates
+	for i := 0; i < len(ids); i += 12 {
+		var ops []string
+		for j := i; j < i+12 && j < len(ids); j++ {
+			id := ids[j]
+			nr := r.intn(3)
+			var roles []string
+			for k := 0; k < nr; k++ {
+				roles = append(roles, strconv.Itoa(r.intn(3)))
+			}
+			ops = append(ops, fmt.Sprintf("p%d.%d.%d.%s", id, id*10, r.intn(6), strings.Join(roles, "+")))
+		}
+		txs = append(txs, "c:"+strings.Join(ops, "/"))
+	}
+	// then a short random history over them
+	for n := 2 + r.intn(5); n > 0; n-- {
+		var ops []string
+		for k := 1 + r.intn(4); k > 0; k-- {
+			id := pick(r, ids)
+			switch x := r.intn(10); {
+			case x < 4:
+				gen[id] = (gen[id] + 1) % 3
+				ops = append(ops, fmt.Sprintf("p%d.%d.%d.%d", id, id*10+gen[id], r.intn(6), r.intn(3)))
+			case x < 8:
+				ops = append(ops, fmt.Sprintf("l%d.%d+%d", id, r.intn(3), r.intn(3)))
+			default:
+				ops = append(ops, fmt.Sprintf("d%d", id))
+			}
+		}
+		c := "c"
+		if r.chance(1, 6) {
+			c = "a"
+		}
+		txs = append(txs, c+":"+strings.Join(ops, "/"))
+	}
+	return fmt.Sprintf("cr %d %d %d %s %s", 3+r.intn(4), iters, r.next()%1000000, strings.Join(focus, ","), strings.Join(txs, " "))
+}
+
 func c18Gen(tier string, seed uint64, out *bufio.Writer) {
 	r := newRng(seed)
 	nmv, ntx := 30, 14
@@ -643,11 +1019,22 @@ func c18Gen(tier string, seed uint64, out *bufio.Writer) {
 		}
 		fmt.Fprintf(out, "mv %d %d %d %s\n", 2+r.intn(4), 2, r.next()%1000000, strings.Join(txs, " "))
 	}
+	ncr, crIters := len(c18Focus), 150
+	if tier == "thorough" {
+		ncr, crIters = 160, 500
+	}
+	for i := 0; i < ncr; i++ {
+		focus := c18Focus[i%len(c18Focus)]
+		if i >= 2*len(c18Focus) && i%2 == 1 {
+			focus = []string{pick(r, c18QKinds), pick(r, c18QKinds), pick(r, c18QKinds)}
+		}
+		fmt.Fprintln(out, c18GenCr(r, focus, crIters))
+	}
 	it := 300
 	if tier == "thorough" {
 		it = 3000
 	}
-	for _, sc := range []string{"parse", "getsymbol", "errors", "query"} {
+	for _, sc := range []string{"parse", "getsymbol", "errors", "query", "extsym", "emptyfilter"} {
 		fmt.Fprintf(out, "race %s %d %d\n", sc, 6, it)
 	}
 }
